@@ -1104,7 +1104,20 @@ class Serial(Formatter, fmt="%n"):
         """
         if value is None:
             return 0
-        if not can_int(value) or ((prepare := int(float(value))) < 0):
+        if isinstance(value, int):
+            # NOTE: keep an integer exact, the float type can not hold an
+            #   integer above 2**53.
+            prepare: int = int(value)
+        elif not can_int(value):
+            raise FormatterValueError(
+                f"Serial formatter does not support for value, {value!r}."
+            )
+        else:
+            try:
+                prepare = int(value)
+            except (TypeError, ValueError):
+                prepare = int(float(value))
+        if prepare < 0:
             raise FormatterValueError(
                 f"Serial formatter does not support for value, {value!r}."
             )
